@@ -37,7 +37,9 @@ type c03Case struct {
 	Binding string   `json:"binding"`
 	Seq     []string `json:"seq"`
 	Depth   int      `json:"depth,omitempty"` // job mode: enumerate all sequences of this length
-	Kinds   []string `json:"kinds,omitempty"`
+	// AuthzFault: the named storage write fails once while the authorization response is built
+	AuthzFault string   `json:"authz_fault,omitempty"`
+	Kinds      []string `json:"kinds,omitempty"`
 }
 
 var c03Kinds = []string{"correctV", "noV", "wrongV", "crossV", "short42", "long129", "badchar"}
@@ -45,6 +47,37 @@ var c03Kinds = []string{"correctV", "noV", "wrongV", "crossV", "short42", "long1
 // extended alphabet: the same attempts with unusual grant_type spellings (a token request is a
 // token request however its grant_type list is written)
 var c03KindsExt = append(append([]string(nil), c03Kinds...), "noV/gt=extra", "noV/gt=dup", "wrongV/gt=extra", "noV/gt=case", "noV/fault", "wrongV/fault")
+
+// third alphabet: unusual spellings of the code itself (whatever string redeems the code must satisfy the binding)
+var c03KindsSpell = []string{"correctV", "noV", "wrongV", "noV/code=trail-space", "noV/code=lead-space", "noV/code=newline", "noV/code=tab", "noV/code=crlf", "wrongV/code=trail-space", "noV/code=no-prefix", "noV/code=upper-prefix"}
+var c03AuthzFaults = []string{"CreatePKCERequestSession", "CreateAuthorizeCodeSession", "CreateOpenIDConnectSession"}
+
+func c03CodeSpelling(kind, code string) (string, string) {
+	i := strings.Index(kind, "/code=")
+	if i < 0 {
+		return kind, code
+	}
+	switch kind[i+6:] {
+	case "trail-space":
+		code += " "
+	case "lead-space":
+		code = " " + code
+	case "newline":
+		code += "\n"
+	case "tab":
+		code += "\t"
+	case "crlf":
+		code += "\r\n"
+	case "no-prefix":
+		code = strings.TrimPrefix(code, "ory_ac_")
+	case "upper-prefix":
+		if strings.HasPrefix(code, "ory_ac_") {
+			code = "ORY_AC_" + code[7:]
+		}
+	}
+	return kind[:i], code
+}
+
 var c03Bindings = []string{"S256", "plain", "omitted", "none", "plain-short", "plain-bad", "unknown-method", "s256-lower", "Plain-caps"}
 
 // binding -> (challenge, method param, effective method)
@@ -71,6 +104,9 @@ func c03Binding(b string) (challenge, method, eff string) {
 }
 
 func c03GrantType(kind string) (string, string) {
+	if i := strings.Index(kind, "/code="); i >= 0 {
+		kind = kind[:i]
+	}
 	if i := strings.Index(kind, "/gt="); i >= 0 {
 		switch kind[i+4:] {
 		case "extra":
@@ -177,7 +213,18 @@ func c03RunSeq(c c03Case, res *WRes) (outcomes []string) {
 			params.Set("code_challenge_method", method)
 		}
 	}
+	if c.AuthzFault != "" {
+		fired := false
+		w.Store.Before = func(call *Call) error {
+			if call.Name == c.AuthzFault && !fired {
+				fired = true
+				return fmt.Errorf("storage: connection reset")
+			}
+			return nil
+		}
+	}
 	ao := w.Authorize(params, AuthzOpts{})
+	w.Store.Before = nil
 	res.Trans++
 	code := ao.Param("code")
 	mk := func(fp, what, exp string, obs any, upto int) Violation {
@@ -205,7 +252,8 @@ func c03RunSeq(c c03Case, res *WRes) (outcomes []string) {
 	for i, kind := range c.Seq {
 		v, sent := c03Verifier(c.Binding, kind)
 		_, gt := c03GrantType(kind)
-		form := url.Values{"grant_type": {gt}, "code": {code}, "redirect_uri": {"https://" + c.Client + ".example/cb"}}
+		_, spelt := c03CodeSpelling(kind, code)
+		form := url.Values{"grant_type": {gt}, "code": {spelt}, "redirect_uri": {"https://" + c.Client + ".example/cb"}}
 		if sent {
 			form.Set("code_verifier", v)
 		}
@@ -232,6 +280,9 @@ func c03RunSeq(c c03Case, res *WRes) (outcomes []string) {
 				prior = "failed-attempts"
 			}
 			fp := fmt.Sprintf("C03/tokens-issued-without-valid-proof/bind=%s/attempt=%s/prior=%s", c.Binding, kind, prior)
+			if c.AuthzFault != "" {
+				fp += "/authz-fault=" + c.AuthzFault
+			}
 			res.violate(mk(fp, fmt.Sprintf("token endpoint issued tokens for attempt %q (%s) on a code bound with %s after attempts %v", kind, why, c.Binding, c.Seq[:i]), "refusal: "+why, o, i+1))
 		}
 		if issued {
@@ -288,7 +339,7 @@ func c03Job(arg json.RawMessage) (any, error) {
 				res.Evals++
 				res.Traces++
 				res.States++
-				key := fmt.Sprintf("%s/%v/%s/%s/%s|%v|%v", c.Enforce, c.Plain, c.Client, c.Flow, c.Binding, seq, out)
+				key := fmt.Sprintf("%s/%v/%s/%s/%s/%s|%v|%v", c.Enforce, c.Plain, c.Client, c.Flow, c.Binding, c.AuthzFault, seq, out)
 				if len(out) > 0 && out[0] != "no-code" {
 					res.distinct(key)
 				}
@@ -346,12 +397,19 @@ func init() {
 						for _, b := range c03Bindings {
 							jobs = append(jobs, c03Case{Enforce: enf, Plain: plain, Client: cl, Flow: fl, Binding: b, Depth: depth})
 							jobs = append(jobs, c03Case{Enforce: enf, Plain: plain, Client: cl, Flow: fl, Binding: b, Depth: depth - 1, Kinds: c03KindsExt})
+							jobs = append(jobs, c03Case{Enforce: enf, Plain: plain, Client: cl, Flow: fl, Binding: b, Depth: depth - 2, Kinds: c03KindsSpell})
+							for _, af := range c03AuthzFaults {
+								if af == "CreateOpenIDConnectSession" && fl != "hybrid" {
+									continue
+								}
+								jobs = append(jobs, c03Case{Enforce: enf, Plain: plain, Client: cl, Flow: fl, Binding: b, Depth: depth - 2, AuthzFault: af})
+							}
 						}
 					}
 				}
 			}
 		}
-		r.Bounds = map[string]any{"attempt_sequence_depth": depth, "attempt_kinds": c03Kinds, "extended_kinds_to_depth": depth - 1, "extended_kinds": c03KindsExt, "bindings": c03Bindings,
+		r.Bounds = map[string]any{"attempt_sequence_depth": depth, "attempt_kinds": c03Kinds, "extended_kinds_to_depth": depth - 1, "extended_kinds": c03KindsExt, "code_spelling_kinds_to_depth": depth - 2, "code_spelling_kinds": c03KindsSpell, "authorization_time_faults_to_depth": depth - 2, "authorization_time_faults": c03AuthzFaults, "bindings": c03Bindings,
 			"enforcement": []string{"off", "public", "all"}, "plain": []bool{false, true}, "clients": []string{"P(public)", "A(confidential)"}, "flows": []string{"code", "hybrid"}}
 		r.Rule = "every sequence of <=depth redemption attempts (7 kinds) on one code, for every enforcement x plain x client x flow x binding; a case is one executed history; distinct non-trivial = distinct (config, sequence, outcome vector) where a code was issued"
 		r.Assumptions = []string{"reference predicate: tokens may be issued only for a well-formed verifier transforming to the bound challenge under the bound method (or no challenge and no applicable enforcement)",
